@@ -21,48 +21,8 @@ class MichelsonFormatterError(ValueError):
 
 
 def is_framed(node):
-    if node['prim'] in {
-        'Pair',
-        'Left',
-        'Right',
-        'Some',
-        'pair',
-        'or',
-        'option',
-        'map',
-        'big_map',
-        'list',
-        'set',
-        'contract',
-        'lambda',
-        'ticket',
-        'sapling_state',
-        'sapling_transaction',
-        'sapling_transaction_deprecated',
-    }:
-        return True
-    elif node['prim'] in {
-        'key',
-        'unit',
-        'signature',
-        'operation',
-        'int',
-        'nat',
-        'string',
-        'bytes',
-        'mutez',
-        'bool',
-        'key_hash',
-        'timestamp',
-        'address',
-        'bls12_381_g1',
-        'bls12_381_g2',
-        'bls12_381_fr',
-        'chain_id',
-        'never',
-    }:
-        return 'annots' in node
-    return False
+    # an expression in argument position needs parentheses iff it is applied or annotated
+    return bool(node.get('args')) or bool(node.get('annots'))
 
 
 def is_complex(node):
